@@ -1,7 +1,7 @@
 import os, sys, hashlib, re, json
 from vf import Check, Stream, VERIF, BUILD, REPO, sh, log, first_diff
 
-QUICK_MUL = 8   # stream sizes of the quick tier (thorough: ten times as many)
+QUICK_MUL = 22  # stream sizes of the quick tier (thorough: ten times as many)
 NF = 8  # futures a generated case uses at most (harness/driver allow 64)
 
 
@@ -108,11 +108,36 @@ class C10(Check):
     harness_sources = ['harness/future.cpp']
     harness_link_flags = ['-Wl,--wrap=pthread_cond_wait,--wrap=pthread_cond_broadcast']
     per_case_timeout = 20
+    # NOTE (harness agent): the texts below describe the tie between model and code only; the proof
+    # part (theorems, what is modelled/proved) is to be completed by the owner of coq/Future.
     level_text = ''
-    level_note = ''
-    technique = ''
-    rule = ''
-    assumptions = []
+    level_note = ('Tie between model/spec and the C++ (validated by correspondence only, not proved): the harness includes the '
+                  'working tree\'s src/Future.cpp, installs a ThreadPool(min,max,queue) per case and runs the client scripts as real '
+                  'threads; every __sync builtin in Future.cpp (force-included harness/future_points.h) calls a hook before and after, '
+                  'pthread_cond_wait/pthread_cond_broadcast of libnstd are wrapped (ld --wrap). The hooks inject (a) pseudo-random '
+                  'yields/sleeps per (case seed, thread), (b) targeted delays at named points (profiles sleepwake/handshake/publish), '
+                  '(c) gated replays of two model schedules (corpus/C10: a thread is held at a point until another thread has passed '
+                  'another point; every gate wait is bounded by 2 s, so a gate cannot hang a case). The observations compared are '
+                  'schedule-independent facts only: execution counter and argument echo per call, converted results, '
+                  'join-after-completion stamps, isFinished/isAborted after join, number of run() calls, worker count <= max, '
+                  'no deadlock within a 20 s watchdog (its report `deadlock phase=… queue… enq.state…` is an observation, so a hang is a '
+                  'spec mismatch), ASan/UBSan clean. Real threads explore only the interleavings the scheduler and the injected '
+                  'delays produce; the interleaving model is not replayed step by step against the code except for the two gated '
+                  'schedules. Once two cases of a run have hung the remaining cases run under a 6 s watchdog and after eight hangs '
+                  'they are not run (the run has failed by then).')
+    technique = ('differential correspondence of the extracted model/spec with an ASan/UBSan build of the real code run by real '
+                 'threads with injected yields/sleeps at the __sync points, targeted delays and two gated (partial-order) replays of '
+                 'model schedules')
+    rule = ('cases = client scripts (start/join/get/check/abort/pause per client thread, every future owned by one client) on a pool '
+            '(min 0-3, max 3-6, queue capacity 1-16, 1-4 clients, clock scale, lazy creation); streams: single client, several '
+            'clients, full queue (capacity 1-2, more slow calls than workers), shrink (scaled clock, idle workers retire), lazy pool '
+            'creation raced, and three targeted-delay profiles (worker sleep/wake handshake, completion handshake with '
+            'join/check/get right after, queue slot publication); corpus = two gated replays (lost wake-up by a late reset + null '
+            'job; FastSignal set/reset race); a case is non-trivial when it starts >= 3 calls and uses >= 2 client threads or '
+            'starts >= 5 calls; distinct = distinct op text')
+    assumptions = ['the interleavings of the real code are sampled (scheduler + injected delays + two gated schedules), not enumerated',
+                   'a case that does not end within the 20 s watchdog counts as a deadlock (cases take milliseconds)',
+                   'gate op lines are scheduling directives for the harness only; model and spec read them as pause']
 
     @property
     def harness_flags(self):
@@ -123,7 +148,7 @@ class C10(Check):
     def shrink(self, case, pred, budget=400):
         """A gated replay (corpus witness) is a hand-made schedule: every line matters, and every
         candidate that still hangs costs a full watchdog period.  It is reported as it is."""
-        if any(' gate ' in l for l in case):
+        if any(' gate rule ' in l and ' sleep ' not in l for l in case):
             return case
         return Check.shrink(self, case, pred, budget=min(budget, 60))
 
@@ -177,8 +202,9 @@ class C10(Check):
                 continue
             dl = [l for l in impl_obs[i] if l.startswith('deadlock ')]
             if dl:
-                reason = ('spec: every start/join/get of the script returns (%d operations); implementation: '
-                          'the case never ends, the watchdog reports `%s`' % (len(spec_obs[i]), dl[0]))
+                gated = any(' gate rule ' in l and ' sleep ' not in l for l in cases[i])
+                reason = ('%s never ends (spec: all %d operations of the scripts return); the watchdog reports `%s`'
+                          % ('gated replay of a model schedule' if gated else 'case', len(spec_obs[i]), dl[0]))
             fails.append((i, k, reason))
         return fails
 
